@@ -116,6 +116,16 @@ func universe(a archCfg) []token {
 	}
 	add("-1", "junk")
 	add("xyz", "junk")
+	// names whose index is not a plain in-range number: signed, zero-padded, empty
+	for _, pre := range []string{"r", "i", "o"} {
+		add(pre+"-1", "junk")
+		add(pre+"+1", "junk")
+		add(pre+"01", "junk")
+		add(pre, "junk")
+	}
+	for _, sn := range shortNames {
+		add(sn+"-1", "junk")
+	}
 	return t
 }
 
